@@ -44,25 +44,44 @@ def check(ctx):
     bparam, cparam = ct.positional_params[1], ct.positional_params[2]
 
     # ---------------------------------------------------------------- C18.1 purity
+    def fresh_receiver(e, node, depth=0):
+        """is the object written through *e* provably allocated inside this call?"""
+        while isinstance(e, (ast.Attribute, ast.Subscript)):
+            e = e.value
+        if not isinstance(e, ast.Name) or depth > 4:
+            return False
+        srcs = value_sources(ct, e, node)
+        if not srcs:
+            return False
+        for k, pl in srcs:
+            if k == "expr" and isinstance(pl, ast.Call) and ast.unparse(pl.func) in ("dict", "list", "OrderedDict", "copy.copy", "copy.deepcopy"):
+                continue
+            if k == "expr" and isinstance(pl, ast.Call) and isinstance(pl.func, ast.Attribute) and pl.func.attr == "copy":
+                continue
+            if k == "expr" and isinstance(pl, (ast.Dict, ast.List, ast.DictComp, ast.ListComp)):
+                continue
+            return False
+        return True
+
     bad = []
     for n in g.nodes:
         if n.kind == "assign":
             st = n.ast
             tgts = st.targets if isinstance(st, ast.Assign) else [st.target]
             for t in tgts:
-                if isinstance(t, (ast.Subscript, ast.Attribute)) and rooted_at_param(ct, t.value, params, n):
+                if isinstance(t, (ast.Subscript, ast.Attribute)) and not fresh_receiver(t.value, n):
                     bad.append(n)
         elif n.kind == "delete":
             for t in n.ast.targets:
-                if isinstance(t, (ast.Subscript, ast.Attribute)) and rooted_at_param(ct, t.value, params, n):
+                if isinstance(t, (ast.Subscript, ast.Attribute)) and not fresh_receiver(t.value, n):
                     bad.append(n)
         elif n.kind == "call" and isinstance(n.ast.func, ast.Attribute) and n.ast.func.attr in MUTATING_METHODS:
-            if rooted_at_param(ct, n.ast.func.value, params, n):
+            if isinstance(n.ast.func.value, ast.Name) and not fresh_receiver(n.ast.func.value, n):
                 bad.append(n)
-    ctx.ob("pure", ct, "no write through a parameter", not bad,
-           "combine_trees never writes into base or child" if not bad else
-           "combine_trees mutates an input tree at line %s (%s): merging changes the including document's tree / the included file's tree"
-           % (bad[0].lineno, ast.unparse(bad[0].ast)[:50]))
+    ctx.ob("pure", ct, "every write goes to an object allocated inside the call", not bad,
+           "combine_trees writes only into its own copy" if not bad else
+           "combine_trees writes through `%s` (line %s), which is not provably the local copy: a nested map of an input tree can be modified"
+           % (ast.unparse(bad[0].ast)[:50], bad[0].lineno))
     rets = returns_of(an, ct)
     okr = bool(rets)
     for r in rets:
@@ -78,38 +97,52 @@ def check(ctx):
            "combine_trees does not return a fresh copy of the base tree (it returns an input, or drops the base's keys)")
 
     # ---------------------------------------------------------------- C18.2 precedence
-    ret_names = {r.ast.value.id for r in rets if isinstance(r.ast.value, ast.Name)}
-    stores = [n for n in g.nodes if n.kind == "assign" and isinstance(n.ast, ast.Assign) and any(
-        isinstance(t, ast.Subscript) and isinstance(t.value, ast.Name) and t.value.id in ret_names for t in n.ast.targets)]
-    ctx.need(bool(stores), "combine_trees no longer stores into its result")
-    loop = [n for n in g.nodes if n.kind == "for_iter" and isinstance(n.ast, ast.For)]
-    okl = bool(loop) and all(any(isinstance(x, ast.Name) and x.id == cparam for x in ast.walk(h.ast.iter)) for h in loop)
-    ctx.ob("iterates-child", ct, "for key, value in child.items()", okl, "every key of the included tree is visited" if okl else
-           "combine_trees does not iterate over the included tree")
-    nrec = 0
-    for s in stores:
-        v = s.ast.value
-        if isinstance(v, ast.Call) and ct in an.callees(ct, g.nodes_for(v)[0]):
-            nrec += 1
-            a = v.args
-            ok = len(a) == 2 and rooted_at_param(ct, a[0], {bparam}, s) and any(k == "iter" for k, _ in value_sources(ct, a[1], s))
-            ctx.ob("recursion.argument-order", ct, v, ok, "recurses with (base value, included value)" if ok else
-                   "the recursive merge swaps or replaces its arguments: nested included values lose", node=s)
-            both = [t for t, tr in dominating_guards(an, ct, s) if tr and isinstance(t.ast, ast.Call) and ast.unparse(t.ast.func) == "isinstance"
-                    and "dict" in ast.unparse(t.ast.args[1])]
-            ctx.ob("recursion.only-for-two-maps", ct, v, len(both) >= 2, "recursion only when both sides are maps" if len(both) >= 2 else
-                   "recursion is not restricted to map/map conflicts", node=s)
-        else:
-            srcs = value_sources(ct, v, s)
-            ok = bool(srcs) and all(k == "iter" for k, _ in srcs)
-            ctx.ob("included-wins", ct, s.ast, ok, "the included tree's value is taken" if ok else
-                   "a non-recursive branch stores %s instead of the included value: the including document wins" % ast.unparse(v), node=s)
-        # the key stored is the key visited
-        t = s.ast.targets[0]
-        okk = isinstance(t.slice, ast.Name) and any(k == "iter" for k, _ in value_sources(ct, t.slice, s))
-        ctx.ob("same-key", ct, s.ast, okk, "stored under the visited key" if okk else "stored under a different key", node=s)
-    ctx.ob("recursion.exists", ct, "nested maps merge recursively", nrec >= 1, "map/map conflicts are merged recursively" if nrec else
-           "nested maps are replaced wholesale instead of merged")
+    recursive_shape = any(ct in an.callees(ct, n) for n in g.nodes if n.kind == "call")
+    nloops = len([x for x in ast.walk(ct.node) if isinstance(x, (ast.For, ast.While))])
+    if not recursive_shape and nloops <= 1 and not any(isinstance(x, ast.While) for x in ast.walk(ct.node)):
+        # a single pass without recursion: nested maps cannot be merged at all -- evaluate the clauses (they will say so)
+        recursive_shape = True
+    if not recursive_shape:
+        # a re-written merge (work list, reduce, ...): the precedence clauses below are phrased for the recursive shape
+        # and are not evaluated; purity and "returns a fresh copy" above still are
+        ctx.ob("shape", ct, "recursive merge", True, "merge is not self-recursive: precedence clauses not evaluated for this shape (purity still is)",
+               nontrivial=False)
+        ctx.note("combine_trees is not self-recursive: C18.2 precedence clauses skipped")
+    if recursive_shape:
+        ret_names = {r.ast.value.id for r in rets if isinstance(r.ast.value, ast.Name)}
+        stores = [n for n in g.nodes if n.kind == "assign" and isinstance(n.ast, ast.Assign) and any(
+            isinstance(t, ast.Subscript) and isinstance(t.value, ast.Name) and t.value.id in ret_names for t in n.ast.targets)]
+        if not stores:
+            ctx.ob("included-wins", ct, "stores into the returned copy", False,
+                   "combine_trees no longer stores included values directly into the tree it returns")
+        loop = [n for n in g.nodes if n.kind == "for_iter" and isinstance(n.ast, ast.For)]
+        okl = bool(loop) and all(any(isinstance(x, ast.Name) and x.id == cparam for x in ast.walk(h.ast.iter)) for h in loop)
+        ctx.ob("iterates-child", ct, "for key, value in child.items()", okl, "every key of the included tree is visited" if okl else
+               "combine_trees does not iterate over the included tree")
+        nrec = 0
+        for s in stores:
+            v = s.ast.value
+            if isinstance(v, ast.Call) and ct in an.callees(ct, g.nodes_for(v)[0]):
+                nrec += 1
+                a = v.args
+                ok = len(a) == 2 and rooted_at_param(ct, a[0], {bparam}, s) and any(k == "iter" for k, _ in value_sources(ct, a[1], s))
+                ctx.ob("recursion.argument-order", ct, v, ok, "recurses with (base value, included value)" if ok else
+                       "the recursive merge swaps or replaces its arguments: nested included values lose", node=s)
+                both = [t for t, tr in dominating_guards(an, ct, s) if tr and isinstance(t.ast, ast.Call) and ast.unparse(t.ast.func) == "isinstance"
+                        and "dict" in ast.unparse(t.ast.args[1])]
+                ctx.ob("recursion.only-for-two-maps", ct, v, len(both) >= 2, "recursion only when both sides are maps" if len(both) >= 2 else
+                       "recursion is not restricted to map/map conflicts", node=s)
+            else:
+                srcs = value_sources(ct, v, s)
+                ok = bool(srcs) and all(k == "iter" for k, _ in srcs)
+                ctx.ob("included-wins", ct, s.ast, ok, "the included tree's value is taken" if ok else
+                       "a non-recursive branch stores %s instead of the included value: the including document wins" % ast.unparse(v), node=s)
+            # the key stored is the key visited
+            t = s.ast.targets[0]
+            okk = isinstance(t.slice, ast.Name) and any(k == "iter" for k, _ in value_sources(ct, t.slice, s))
+            ctx.ob("same-key", ct, s.ast, okk, "stored under the visited key" if okk else "stored under a different key", node=s)
+        ctx.ob("recursion.exists", ct, "nested maps merge recursively", nrec >= 1, "map/map conflicts are merged recursively" if nrec else
+               "nested maps are replaced wholesale instead of merged")
 
     # include site
     g = an.cfg(inc)
